@@ -28,6 +28,17 @@ enum Case {
         msg: usize,
         seed: String,
     },
+    /// key material that has been through share maintenance among `t + extra` holders
+    /// (kind: refresh-dealer | refresh-dkg | repair), then the same below-threshold drive
+    Maintained {
+        suite: String,
+        n: u16,
+        t: u16,
+        kind: String,
+        extra: u16,
+        signers: u32,
+        seed: String,
+    },
     /// exact Shamir secrecy count over all polynomials
     TinySecrecy { q: u64, n: u16, t: u16 },
 }
@@ -40,7 +51,7 @@ impl Prop for C03 {
         "exploration"
     }
     fn rule(&self) -> String {
-        "complete enumeration: suites x (n,t) x id kinds x EVERY subset of size 1..t-1 (plus |S|=t positive controls) x {honest, lowered key-package threshold} x public-package threshold {honest, lowered, absent} x 3 detection modes; tiny field: ALL polynomials grouped by every (t-1)-subset of shares (exact secrecy count). Non-trivial = a below-threshold subset was driven through sign/aggregate/reconstruct".into()
+        "complete enumeration: suites x (n,t) x id kinds x EVERY subset of size 1..t-1 (plus |S|=t positive controls) x {honest, lowered key-package threshold} x public-package threshold {honest, lowered, absent} x 3 detection modes; the same drive through the re-randomized entry points (sign_with_randomizer_seed, deprecated sign, aggregate, aggregate_custom) and on key material after dealer refresh / distributed refresh / repair among exactly t and t+1 holders; tiny field: ALL polynomials grouped by every (t-1)-subset of shares (exact secrecy count). Non-trivial = a below-threshold subset was driven through sign/aggregate/reconstruct".into()
     }
     fn assumptions(&self) -> Vec<String> {
         vec!["unforgeability against arbitrary algorithms is a cryptographic assumption; decided here: the refusals, the honest-algorithm attack with lied thresholds, exact Shamir secrecy on GF(q)".into()]
@@ -49,7 +60,7 @@ impl Prop for C03 {
         format!("n<={}, every subset below t; tiny q in {{5,7,11}} t<={}", tier.pick(6, 8), tier.pick(3, 4))
     }
     fn required_counters(&self) -> Vec<&'static str> {
-        vec!["below_threshold_sets", "lying_signs_ok", "positive_controls", "secrecy_classes"]
+        vec!["below_threshold_sets", "lying_signs_ok", "positive_controls", "secrecy_classes", "maintained_groups", "rr_below_threshold_sets"]
     }
     fn cases(&self, tier: Tier, seed: u64) -> Vec<Value> {
         let mut out = vec![];
@@ -93,6 +104,31 @@ impl Prop for C03 {
                 }
             }
         }
+        // maintained key material: the thresholds recorded after refresh / repair are the ones signers rely on
+        for (n, t) in super::c01::shapes(tier.pick(5u16, 6u16)) {
+            for suite in REAL_SUITES {
+                if suite == "ed448" && n > 4 {
+                    continue;
+                }
+                for kind in ["refresh-dealer", "refresh-dkg", "repair"] {
+                    for extra in [0u16, 1] {
+                        let r = t + extra;
+                        if r > n || (kind == "repair" && extra == 1) || (kind == "repair" && t + 1 > n) {
+                            continue;
+                        }
+                        let members = if kind == "repair" { n } else { r };
+                        for sgn in subsets(members as usize, 1, t as usize) {
+                            if sgn.count_ones() as u16 == t && sgn != (1u32 << t) - 1 {
+                                continue;
+                            }
+                            out.push(
+                                serde_json::to_value(Case::Maintained { suite: suite.to_string(), n, t, kind: kind.to_string(), extra, signers: sgn, seed: format!("s{seed}") }).unwrap(),
+                            );
+                        }
+                    }
+                }
+            }
+        }
         for q in [5u64, 7, 11] {
             for t in 2..=tier.pick(3u16, 4u16) {
                 for n in t..=std::cmp::min(t + 1, q as u16 - 1) {
@@ -109,6 +145,7 @@ impl Prop for C03 {
         let c: Case = serde_json::from_value(case.clone()).expect("case");
         match &c {
             Case::Real { suite, .. } => with_suite!(suite.as_str(), run_real, &c),
+            Case::Maintained { suite, .. } => with_suite!(suite.as_str(), run_maintained, &c),
             Case::TinySecrecy { q, .. } => match q {
                 5 => run_tiny::<5>(&c),
                 7 => run_tiny::<7>(&c),
@@ -143,15 +180,106 @@ fn run_real<C: Suite>(c: &Case) -> Outcome {
         }
     };
     let s = pick::<C>(&grp.ids, *signers);
-    let k = s.len() as u16;
     let m = message(*msg);
     let ctx = format!("n={n} t={t} src={src:?} S={:?}", s.iter().map(|i| id_short::<C>(i)).collect::<Vec<_>>());
     let sseed = format!("{seed}:{signers}:{msg}");
+    drive::<C>(&mut o, &tag, &ctx, &grp.kps, &grp.pkp, &s, *t, &m, &sseed);
+    o
+}
+
+/// refresh / repair among t + extra holders, then the same drive on the maintained packages
+fn run_maintained<C: Suite>(c: &Case) -> Outcome {
+    use super::c10::{Node, refresh_dealer, refresh_dkg};
+    let mut o = Outcome::new();
+    let Case::Maintained { n, t, kind, extra, signers, seed, .. } = c else { unreachable!() };
+    let tag = format!("C03/{}", C::name());
+    let grp = match cached_group::<C>(KeySrc::Dealer, *n, *t, IdKind::Seq, seed) {
+        Ok(g) => g,
+        Err(e) => {
+            o.eval(false);
+            o.fail(format!("{tag}/setup"), e);
+            return o;
+        }
+    };
+    let root = Node { t: *t, kps: grp.kps.clone(), pkp: grp.pkp.clone(), prev: None };
+    // the holders that remain are the LAST t + extra (identifiers above 1)
+    let r = (*t + *extra) as usize;
+    let members: Vec<Id<C>> = grp.ids[grp.ids.len() - r..].to_vec();
+    let made: Result<(BTreeMap<Id<C>, KeyPackage<C>>, PublicKeyPackage<C>, Vec<Id<C>>), String> = match kind.as_str() {
+        "refresh-dealer" => refresh_dealer::<C>(&root, &members, seed).map(|nd| (nd.kps, nd.pkp, members.clone())),
+        "refresh-dkg" => refresh_dkg::<C>(&root, &members, seed, *t).map(|nd| (nd.kps, nd.pkp, members.clone())),
+        _ => {
+            // the last participant loses its package; exactly t helpers (the first t) repair it
+            let target = *grp.ids.last().unwrap();
+            let helpers: Vec<Id<C>> = grp.ids[..*t as usize].to_vec();
+            let mut per_helper: BTreeMap<Id<C>, Vec<_>> = BTreeMap::new();
+            let mut err = None;
+            for h in &helpers {
+                let mut rng = crate::rng::ScriptedRng::ctr(format!("c03-repair:{seed}:{}", id_hex::<C>(h)));
+                match C::w_repair1(&helpers, &grp.kps[h], &mut rng, target) {
+                    Ok(d) => {
+                        for (to, delta) in d {
+                            per_helper.entry(to).or_default().push(delta);
+                        }
+                    }
+                    Err(e) => err = Some(format!("repair_share_part1: {e:?}")),
+                }
+            }
+            match err {
+                Some(e) => Err(e),
+                None => {
+                    let sigmas: Vec<_> = helpers.iter().map(|h| C::w_repair2(&per_helper[h])).collect();
+                    C::w_repair3(&sigmas, target, &grp.pkp).map_err(|e| format!("repair_share_part3: {e:?}")).map(|kp| {
+                        let mut kps = grp.kps.clone();
+                        kps.insert(target, kp);
+                        (kps, grp.pkp.clone(), grp.ids.clone())
+                    })
+                }
+            }
+        }
+    };
+    let (kps, pkp, ids) = match made {
+        Ok(x) => x,
+        Err(e) => {
+            o.eval(false);
+            o.fail(format!("{tag}/{kind}-failed"), format!("n={n} t={t} holders={r}: {e}"));
+            return o;
+        }
+    };
+    o.count("maintained_groups", 1);
+    // with repair, the signer sets always include the repaired participant (the last identifier)
+    let mut s = pick::<C>(&ids, *signers);
+    if kind == "repair" {
+        let target = *ids.last().unwrap();
+        if !s.contains(&target) {
+            s.pop();
+            s.push(target);
+            s.sort();
+            s.dedup();
+        }
+    }
+    let ctx = format!("n={n} t={t} after {kind} among {r} S={:?}", s.iter().map(|i| id_short::<C>(i)).collect::<Vec<_>>());
+    let sseed = format!("{seed}:{kind}:{extra}:{signers}");
+    drive::<C>(&mut o, &tag, &ctx, &kps, &pkp, &s, *t, &message(2), &sseed);
+    o
+}
+
+#[allow(clippy::too_many_arguments)]
+fn drive<C: Suite>(o: &mut Outcome, tag: &str, ctx: &str, kps_all: &BTreeMap<Id<C>, KeyPackage<C>>, pkp_all: &PublicKeyPackage<C>, s: &[Id<C>], t: u16, m: &[u8], sseed: &str) {
+    struct G2<'a, C: Suite> {
+        kps: &'a BTreeMap<Id<C>, KeyPackage<C>>,
+        pkp: &'a PublicKeyPackage<C>,
+    }
+    let grp = G2::<C> { kps: kps_all, pkp: pkp_all };
+    let t = &t;
+    let s = s.to_vec();
+    let m = m.to_vec();
+    let k = s.len() as u16;
     if k == *t {
         // positive control: exactly t sign, aggregate, reconstruct
         o.eval(true);
         o.count("positive_controls", 1);
-        super::c01::session_check::<C>(&mut o, &tag, &grp.kps, &grp.pkp, &s, &m, &sseed);
+        super::c01::session_check::<C>(o, &tag, &grp.kps, &grp.pkp, &s, &m, &sseed);
         let kps: Vec<_> = s.iter().map(|i| grp.kps[i].clone()).collect();
         match C::w_reconstruct(&kps) {
             Ok(key) => {
@@ -161,7 +289,7 @@ fn run_real<C: Suite>(c: &Case) -> Outcome {
             }
             Err(e) => o.fail(format!("{tag}/reconstruct-t-failed"), format!("{ctx}: {e:?}")),
         }
-        return o;
+        return;
     }
     o.eval(true);
     o.count("below_threshold_sets", 1);
@@ -184,7 +312,7 @@ fn run_real<C: Suite>(c: &Case) -> Outcome {
             }
             Err(e) => {
                 o.fail(format!("{tag}/MACHINERY-lying-signer-failed"), format!("{ctx}: {e:?}"));
-                return o;
+                return;
             }
         }
         lying_kps.push(lk);
@@ -273,7 +401,66 @@ fn run_real<C: Suite>(c: &Case) -> Outcome {
         }
         Err(_) => {}
     }
-    o
+    rr_drive::<C>(o, tag, ctx, kps_all, pkp_all, &s, *t, &m, sseed, &pkg, &nonces);
+}
+
+/// the re-randomized entry points must refuse exactly like the plain ones
+#[allow(clippy::too_many_arguments)]
+fn rr_drive<C: Suite>(
+    o: &mut Outcome,
+    tag: &str,
+    ctx: &str,
+    kps: &BTreeMap<Id<C>, KeyPackage<C>>,
+    pkp: &PublicKeyPackage<C>,
+    s: &[Id<C>],
+    t: u16,
+    m: &[u8],
+    sseed: &str,
+    pkg: &SigningPackage<C>,
+    nonces: &BTreeMap<Id<C>, fc::round1::SigningNonces<C>>,
+) {
+    use frost_rerandomized::RandomizedParams;
+    let k = s.len() as u16;
+    let mut rng = crate::rng::ScriptedRng::ctr(format!("c03-rr:{sseed}"));
+    let Ok((params, seed)) = RandomizedParams::<C>::new_from_commitments(pkp.verifying_key(), pkg.signing_commitments(), &mut rng) else {
+        o.fail(format!("{tag}/rr-params-failed"), ctx.to_string());
+        return;
+    };
+    o.count("rr_below_threshold_sets", 1);
+    for id in s {
+        if C::w_rr_sign(pkg, &nonces[id], &kps[id], &seed).is_ok() {
+            o.fail(format!("{tag}/rr-signer-did-not-refuse"), format!("{ctx}: sign_with_randomizer_seed signed a package with {k} < {t} participants for {}", id_short::<C>(id)));
+        }
+        #[allow(deprecated)]
+        if frost_rerandomized::sign(pkg, &nonces[id], &kps[id], *params.randomizer()).is_ok() {
+            o.fail(format!("{tag}/rr-signer-did-not-refuse"), format!("{ctx}: rerandomized sign() signed a package with {k} < {t} participants for {}", id_short::<C>(id)));
+        }
+    }
+    // lying signers, honest coordinator (and lying coordinator): nothing that verifies under the randomized key
+    let mut shares = BTreeMap::new();
+    for id in s {
+        match C::w_rr_sign(pkg, &nonces[id], &with_min::<C>(&kps[id], k), &seed) {
+            Ok(sh) => {
+                shares.insert(*id, sh);
+            }
+            Err(e) => {
+                o.fail(format!("{tag}/MACHINERY-lying-rr-signer-failed"), format!("{ctx}: {e:?}"));
+                return;
+            }
+        }
+    }
+    if let Ok(_) = C::w_rr_aggregate(pkg, &shares, pkp, &params) {
+        o.fail(format!("{tag}/rr-aggregated-below-threshold"), format!("{ctx}: rerandomized aggregate() returned Ok for {k} < {t} shares"));
+    }
+    for pm in [Some(k), None] {
+        let lp = PublicKeyPackage::<C>::new(pkp.verifying_shares().clone(), *pkp.verifying_key(), pm);
+        for cd in [CheaterDetection::Disabled, CheaterDetection::FirstCheater] {
+            if let Ok(sig) = C::w_rr_aggregate_custom(pkg, &shares, &lp, cd, &params) {
+                let v = params.randomized_verifying_key().verify(m, &sig).is_ok();
+                o.fail(format!("{tag}/rr-below-threshold-signature-released"), format!("{ctx} pkp-threshold={pm:?}: rerandomized aggregate returned Ok (verifies under randomized key: {v})"));
+            }
+        }
+    }
 }
 
 fn run_tiny<const Q: u64>(c: &Case) -> Outcome {
